@@ -356,6 +356,7 @@ fn exercise(spec: &ProgSpec, rng: &mut Rng, per_program_random: usize) -> Out1 {
 pub fn run_layer_b(seed: u64, tier: &str, ev: &mut Evidence) -> Vec<Violation> {
     let (n_programs, per_program_random) = if tier == "thorough" { (30_000usize, 12usize) } else { (300, 5) };
     let mut specs: Vec<ProgSpec> = work::corpus_specs().into_iter().filter(|(_, s)| s.source().is_some()).map(|(_, s)| s).collect();
+    specs.extend(work::scale_templates().into_iter().map(|(_, s)| ProgSpec::Source(s)));
     let base = specs.len();
     for j in 0..n_programs {
         let mut rng = Rng::for_case(seed, "C08", "workload-b", j as u64);
